@@ -70,6 +70,20 @@ def extract():
     wraps = all("Arc::new(OffReaderHandler(" in " ".join(fn_body(sv, n).split()).replace("( ", "(")
                 for n in ("with_json_blocking", "with_json_ctx_blocking", "with_typed_blocking", "with_typed_ctx_blocking"))
     f["blockingIsOffReader"] = is_off and wraps
+    # ---- configuration of the cap
+    m = re.search(r"pub const DEFAULT_OFFREADER_LIMIT\s*:\s*usize\s*=\s*(\d+)\s*;", srv)
+    if not m: raise ExtractError("DEFAULT_OFFREADER_LIMIT")
+    f["defaultLimit"] = int(m.group(1))
+    wss = impl_block(srv, r"impl WebSocketServer\s*\{")
+    f["newUsesDefault"] = bool(re.search(r"offreader_limit:\s*Some\(DEFAULT_OFFREADER_LIMIT\)", fn_body(wss, "new")))
+    wl = " ".join(fn_body(wss, "with_offreader_limit").split())
+    f["zeroMeansUnlimited"] = wl == "self.offreader_limit = (limit > 0).then_some(limit); self"
+    shared = " ".join(fn_body(wss, "into_shared").split())
+    hc = fn_body(srv, "handle_connection_with_config")
+    sem = re.findall(r"Semaphore::new\(", srv)
+    f["semaphoreIsLimitPerConnection"] = ("offreader_limit: self.offreader_limit," in shared and len(sem) == 1 and
+        bool(re.search(r"let offreader_sem\s*=\s*config\.offreader_limit\.map\(\|n\|\s*Arc::new\(Semaphore::new\(n\)\)\);", hc)) and
+        bool(re.search(r"reader_task\(ws_reader, &config\.router, conn, offreader_sem\)", hc)))
     return f
 
 
@@ -91,6 +105,11 @@ def render(f):
         f"    repliesCarryRequestId := {b(f['repliesCarryRequestId'])}",
         f"    executionForwards := {b(f['executionForwards'])}",
         f"    blockingIsOffReader := {b(f['blockingIsOffReader'])} }}",
+        "def capFacts : CapFacts :=",
+        f"  {{ defaultLimit := {f['defaultLimit']}",
+        f"    newUsesDefault := {b(f['newUsesDefault'])}",
+        f"    zeroMeansUnlimited := {b(f['zeroMeansUnlimited'])}",
+        f"    semaphoreIsLimitPerConnection := {b(f['semaphoreIsLimitPerConnection'])} }}",
         "end Repe.Gen"]) + "\n"
 
 
